@@ -309,7 +309,11 @@ fn main() {
                         cases += 1;
                     }
                 }
-                _ => {
+                other => {
+                    match other {
+                        Some(Err(e)) => eprintln!("sv_c08: press{p} does not build: {e:#}"),
+                        _ => eprintln!("sv_c08: press{p}: the compiler panicked"),
+                    }
                     writeln!(out, "vm press{p}w{width} build ;; builderr").unwrap();
                     cases += 1;
                 }
